@@ -307,11 +307,12 @@ def tree_path(n_nodes, pairs, a, b):
 class mode(object):
     """vine mode of the executor: extrema, argsort and ranges over symbolic values are resolved by case split"""
     def __enter__(self):
-        self.saved = libmodel.CONCRETE_ARGEXT[0]
+        self.saved = (libmodel.CONCRETE_ARGEXT[0], libmodel.KENDALL_NONDEGENERATE[0])
         libmodel.CONCRETE_ARGEXT[0] = True
+        libmodel.KENDALL_NONDEGENERATE[0] = True
 
     def __exit__(self, *a):
-        libmodel.CONCRETE_ARGEXT[0] = self.saved
+        libmodel.CONCRETE_ARGEXT[0], libmodel.KENDALL_NONDEGENERATE[0] = self.saved
 
 
 class poisoned_empty(object):
